@@ -7,8 +7,23 @@ from checks import cpu, execgen
 F_INSTR = {"PUSHU", "PUSHS", "POPU", "POPS", "RETI", "IR"}
 
 
-def family(case, mn, py, rs, fields):
+def abs_high_nibble(case, rendered):
+    """does the encoding carry an absolute [lmn] operand whose third byte has a non-zero high nibble?"""
+    bs = bytes.fromhex(case[0])
+    for tok in rendered.split():
+        t = tok.strip("[]")
+        if tok.startswith("[") and t.isdigit():
+            v = int(t)
+            for j in range(len(bs) - 2):
+                if bs[j] == v & 0xFF and bs[j + 1] == (v >> 8) & 0xFF and bs[j + 2] & 0x0F == v >> 16 and bs[j + 2] >> 4:
+                    return True
+    return False
+
+
+def family(case, mn, py, rs, fields, rendered=""):
     key = cpu.case_key(case)
+    if abs_high_nibble(case, rendered):
+        return "rust_does_not_mask_absolute_address_to_20_bits"
     if fields == ["f_hi"]:
         return "rust_loads_all_eight_bits_of_F"
     if mn in F_INSTR and case[2].get("F", 0) > 3 and set(fields) <= {"w", "f_hi"}:
@@ -28,7 +43,7 @@ def family(case, mn, py, rs, fields):
     touched = set(py["w"]) | set(rs["w"])
     if any(cpu.IMEM + 0xEC <= a <= cpu.IMEM + 0xEE for a in touched):
         return "instruction_overwrites_BP_PX_PY_it_addresses_with"
-    return "differ_in_" + "+".join(f for f in fields if f != "f_hi")
+    return "results_differ"
 
 
 def program_cases(ctx):
@@ -72,8 +87,9 @@ def run(ctx):
     cases = execgen.exec_cases(rng, ctx.tier, temps=True)
     lines = cpu.wire(cases)
     outs = corr.run_streams(ctx, lines, {"py": ("py", "exec1"), "model": ("model", "exec_py"), "rs": ("rs", "exec1")})
+    rend = corr.run_streams(ctx, [f"{c[0]} {c[1]}" for c in cases], {"model": ("model", "render")})["model"]
     dis = 0
-    for case, l, p, m, r in zip(cases, lines, outs["py"], outs["model"], outs["rs"]):
+    for case, l, p, m, r, rd in zip(cases, lines, outs["py"], outs["model"], outs["rs"], rend):
         ctx.evaluations += 1
         pm = cpu.parse(m)
         pp = cpu.parse(p)
@@ -97,8 +113,8 @@ def run(ctx):
             continue
         fields = cpu.diff_fields(pp, pr)
         if fields:
-            fam = family(case, mn, pp, pr, fields)
-            ctx.report(["rs_py", fam, mn], f"{mn} ({case[0]} at {case[1]:#x}): Rust and Python differ in {fields}",
+            fam = family(case, mn, pp, pr, fields, rd)
+            ctx.report(["rs_py", fam] if fam == "instruction_overwrites_BP_PX_PY_it_addresses_with" else ["rs_py", fam, mn], f"{mn} ({case[0]} at {case[1]:#x}): Rust and Python differ in {fields}",
                        {"case": "exec1 " + l, "python": p[:400], "rust": r[:400], "fields": fields})
     ctx.extra.setdefault("disagreements", {})["model_vs_python"] = dis
     # programs
